@@ -307,6 +307,8 @@ class Interp(ExtMixin):
         ext = getattr(self, "extern_names", {})
         if name in ext:
             return ext[name]
+        if name in EXCEPTION_NAMES:
+            return BuiltinVal("exc:" + name)
         raise Unsupported(f"unresolved name `{name}` in {fr.func}")
 
     # ------------------------------------------------------------------ expression evaluation
@@ -1115,6 +1117,12 @@ class Interp(ExtMixin):
     # ---- builtins ----------------------------------------------------------------------------
     def call_builtin(self, st, f, args, kwargs, node):
         name = f.name
+        if name.startswith("exc:"):
+            # constructing a builtin exception: a value that only remembers its class (raise <value> uses it)
+            o = SymObj("exception", {"exc_class": name[4:], "args": tuple(args)})
+            o.closed = True
+            yield st, o
+            return
         h = getattr(self, "bi_" + name.replace(".", "_"), None)
         if h is None:
             raise Unsupported(f"builtin {name}")
@@ -1474,13 +1482,27 @@ class Interp(ExtMixin):
     def ex_Raise(self, st, s):
         name = "Exception"
         e = s.exc
+        if e is None:
+            raise Unsupported("bare raise")
         if isinstance(e, ast.Call):
             e = e.func
         if isinstance(e, ast.Name):
             name = e.id
         elif isinstance(e, ast.Attribute):
             name = e.attr
-        yield st, ("raise", name, s.lineno)
+        if (isinstance(e, (ast.Name, ast.Attribute)) and (name in EXCEPTION_NAMES or name[:1].isupper())
+                and not (isinstance(e, ast.Name) and e.id in st.frames[-1].locals)):
+            # `raise Cls` / `raise Cls(...)` / `raise mod.Cls(...)`: the class is named in the statement
+            yield st, ("raise", name, s.lineno)
+            return
+        # `raise <expression>`: the exception is computed (a helper that builds it, a variable): evaluate it
+        for st1, v in self.ev(st, s.exc):
+            if v is RAISED:
+                yield st1, st1.pending_raise
+            elif isinstance(v, SymObj) and v.cls == "exception":
+                yield st1, ("raise", v.attrs["exc_class"], s.lineno)
+            else:
+                raise Unsupported(f"raise of a computed value at line {s.lineno}")
 
     def ex_Assert(self, st, s):
         for st1, v in self.ev(st, s.test):
@@ -2213,6 +2235,10 @@ SPEC_BUILTINS = {
     "forall", "exists", "implies", "iff", "ite", "forall_int", "forall_live", "align_up", "pow2", "pymod", "byte",
     "slen", "same_storage", "same_obj",
 }
+import builtins as _builtins
+
+EXCEPTION_NAMES = {n for n in dir(_builtins) if isinstance(getattr(_builtins, n), type) and issubclass(getattr(_builtins, n), BaseException)}
+
 PY_BUILTINS = {"classmethod", "staticmethod", "bytes", "len", "min", "max", "bool", "int", "range", "enumerate", "zip", "list", "tuple", "isinstance", "sum",
                "str", "type", "hasattr", "getattr", "abs", "dict", "reversed", "all", "any"}
 
